@@ -308,4 +308,70 @@ theorem negative_limit_is_zero (c : List Entry) (s1 s2 : List (List Spec)) (t : 
     rw [Bool.eq_iff_iff, named_iff, named_iff]
     simp
 
+/-! ### The `-maxwarn` argument parser -/
+
+/-- A plain number is a blanket allowance. -/
+theorem parse_number (v : List Char) (n : Int) (hc : ':' ∉ v) (hn : pyInt v = some n) :
+    parseMaxwarn v = .ok (none, some n) := by
+  unfold parseMaxwarn
+  rw [splitColon_no_colon v hc]
+  simp [hn]
+
+/-- Anything else without a colon is a type name waived completely. -/
+theorem parse_name (v : List Char) (hc : ':' ∉ v) (hn : pyInt v = none) :
+    parseMaxwarn v = .ok (some (String.ofList v), none) := by
+  unfold parseMaxwarn
+  rw [splitColon_no_colon v hc]
+  simp [hn]
+
+/-- `type:count` -/
+theorem parse_type_count (t c : List Char) (n : Int) (ht : ':' ∉ t) (hc : ':' ∉ c) (hn : pyInt c = some n) :
+    parseMaxwarn (t ++ ':' :: c) = .ok (some (String.ofList t), some n) := by
+  unfold parseMaxwarn
+  rw [splitColon_append t c ht, splitColon_no_colon c hc]
+  simp [hn]
+
+/-- `type:` followed by something that is not an integer is rejected. -/
+theorem parse_type_badcount_rejected (t c : List Char) (ht : ':' ∉ t) (hc : ':' ∉ c) (hn : pyInt c = none) :
+    parseMaxwarn (t ++ ':' :: c) = .reject := by
+  unfold parseMaxwarn
+  rw [splitColon_append t c ht, splitColon_no_colon c hc]
+  simp [hn]
+
+/-- Three or more parts are rejected, whatever they are. -/
+theorem parse_three_parts_rejected (a b rest : List Char) (ha : ':' ∉ a) (hb : ':' ∉ b) :
+    parseMaxwarn (a ++ ':' :: (b ++ ':' :: rest)) = .reject := by
+  unfold parseMaxwarn
+  rw [splitColon_append a _ ha, splitColon_append b rest hb]
+  cases h : splitColon rest with
+  | nil => exact absurd h (splitColon_ne_nil rest)
+  | cons x xs => rfl
+
+/-- The canonical rendering of a count (non-empty ASCII digits, optional minus sign) is read back. -/
+theorem parse_format_number (ds : List Char) (hne : ds ≠ []) (hd : allDigits ds = true) :
+    parseMaxwarn ds = .ok (none, some (digitsVal ds : Int)) := by
+  apply parse_number
+  · intro hm
+    simp only [allDigits, List.all_eq_true] at hd
+    have := hd ':' hm
+    revert this; decide
+  · exact pyInt_digits ds hne hd
+
+theorem parse_format_type_count (t ds : List Char) (ht : ':' ∉ t) (hne : ds ≠ []) (hd : allDigits ds = true) :
+    parseMaxwarn (t ++ ':' :: ds) = .ok (some (String.ofList t), some (digitsVal ds : Int)) := by
+  apply parse_type_count _ _ _ ht
+  · intro hm
+    simp only [allDigits, List.all_eq_true] at hd
+    have := hd ':' hm
+    revert this; decide
+  · exact pyInt_digits ds hne hd
+
+/-! ### Non-vacuity: concrete instances of the hypotheses and of the closed form -/
+
+example : leftover [⟨30, "a", 3⟩, ⟨40, "b", 1⟩, ⟨30, "c", 2⟩] [[(some "a", some 2), (none, some 1)]] 30 = 3 := by decide
+example : nAbove [⟨30, "a", 3⟩, ⟨40, "b", 1⟩, ⟨30, "c", 2⟩] 30 = 1 := by decide
+example : parseMaxwarn "general:15".toList = .ok (some "general", some 15) := by decide
+example : parseMaxwarn "a:b:c".toList = .reject := by decide
+example : ∀ e ∈ warnAt [⟨30, "a", 3⟩, ⟨40, "b", 1⟩] 30, e.type ≠ "never" := by decide
+
 end C08
